@@ -52,6 +52,10 @@ EXACT = [
     ("prec_sub_sub2", "(8 - i) - j", 0, 4, 4),
     ("prec_neg", "8 + -(i + j)", 0, 4, 4),
     ("prec_neg2", "8 + -i + j", 0, 4, 4),
+    ("prec_negsum", "-(i - 7)", 0, 8, 1),
+    ("prec_negsum2", "-(i + j) + 8", 0, 4, 4),
+    ("prec_negsum3", "-(i - 3 - j)", 0, 4, 2),
+    ("prec_negmul", "-(2 * i - 8) / 2", 0, 5, 1),
     ("prec_mul_add", "2 * (i + j)", 0, 3, 3),
     ("prec_mul_sub", "8 + 2 * (j - i)", 0, 4, 4),
     ("prec_add_mul", "2 * i + j", 0, 3, 2),
